@@ -1,0 +1,25 @@
+//go:build verif
+// +build verif
+
+package midicatdrv
+
+import "sync/atomic"
+
+// Verification hook (build tag "verif" only): reports the lock protected steps of the in port to a tracer
+// installed by the verification harness.  Without the tag verifTrace is an empty function.
+
+var verifHook atomic.Value // of func(ev string)
+
+// VerifSetHook installs the tracer (nil removes it).
+func VerifSetHook(f func(ev string)) {
+	if f == nil {
+		f = func(string) {}
+	}
+	verifHook.Store(f)
+}
+
+func verifTrace(ev string) {
+	if f, ok := verifHook.Load().(func(string)); ok {
+		f(ev)
+	}
+}
